@@ -11,16 +11,26 @@ import (
 // injectLitAssert finds the N-th composite literal of the given type in fd and injects the typed assertion block in
 // front of the statement that contains it.
 func (pk *Pkg) injectLitAssert(c *Contract, fd *ast.FuncDecl, la *LitAssert) error {
-	// enumerate literals in source order
-	var lits []*ast.CompositeLit
-	ast.Inspect(fd.Body, func(n ast.Node) bool {
+	// enumerate the literals (or, for a call assertion, the calls) in source order
+	var lits []ast.Expr
+	var root ast.Node = fd.Body
+	if c.Clause != nil {
+		root = c.Clause
+	}
+	ast.Inspect(root, func(n ast.Node) bool {
+		if la.Call {
+			if ce, ok := n.(*ast.CallExpr); ok && exprStr(ce.Fun) == la.Type {
+				lits = append(lits, ce)
+			}
+			return true
+		}
 		if cl, ok := n.(*ast.CompositeLit); ok && cl.Type != nil && exprStr(cl.Type) == la.Type {
 			lits = append(lits, cl)
 		}
 		return true
 	})
 	if la.Ord >= len(lits) {
-		return fmt.Errorf("%s:%d: %s has no composite literal %s #%d", c.File, la.Clause.Line, c.Name, la.Type, la.Ord)
+		return fmt.Errorf("%s:%d: %s has no %s #%d", c.File, la.Clause.Line, c.Name, la.Type, la.Ord)
 	}
 	la.Node = lits[la.Ord]
 	// the innermost statement list holding a statement that contains the literal
@@ -57,7 +67,11 @@ func (pk *Pkg) injectLitAssert(c *Contract, fd *ast.FuncDecl, la *LitAssert) err
 			return
 		}
 	}
-	visit(&fd.Body.List)
+	if c.Clause != nil {
+		visit(&c.Clause.Body)
+	} else {
+		visit(&fd.Body.List)
+	}
 	if holder == nil {
 		return fmt.Errorf("%s:%d: cannot place the literal assertion", c.File, la.Clause.Line)
 	}
@@ -67,12 +81,19 @@ func (pk *Pkg) injectLitAssert(c *Contract, fd *ast.FuncDecl, la *LitAssert) err
 		return fmt.Errorf("%s:%d: %v (in %q)", c.File, la.Clause.Line, err, src)
 	}
 	la.Clause.Expr = x
-	la.LitID = ast.NewIdent("lit")
-	blk := &ast.BlockStmt{List: []ast.Stmt{
-		&ast.DeclStmt{Decl: &ast.GenDecl{Tok: token.VAR, Specs: []ast.Spec{&ast.ValueSpec{Names: []*ast.Ident{la.LitID}, Type: la.Node.Type}}}},
-		&ast.AssignStmt{Lhs: []ast.Expr{ast.NewIdent("_")}, Tok: token.ASSIGN, Rhs: []ast.Expr{ast.NewIdent("lit")}},
-		&ast.AssignStmt{Lhs: []ast.Expr{ast.NewIdent("_")}, Tok: token.ASSIGN, Rhs: []ast.Expr{x}},
-	}}
+	var blk *ast.BlockStmt
+	if la.Call {
+		blk = &ast.BlockStmt{List: []ast.Stmt{
+			&ast.AssignStmt{Lhs: []ast.Expr{ast.NewIdent("_")}, Tok: token.ASSIGN, Rhs: []ast.Expr{x}},
+		}}
+	} else {
+		la.LitID = ast.NewIdent("lit")
+		blk = &ast.BlockStmt{List: []ast.Stmt{
+			&ast.DeclStmt{Decl: &ast.GenDecl{Tok: token.VAR, Specs: []ast.Spec{&ast.ValueSpec{Names: []*ast.Ident{la.LitID}, Type: la.Node.(*ast.CompositeLit).Type}}}},
+			&ast.AssignStmt{Lhs: []ast.Expr{ast.NewIdent("_")}, Tok: token.ASSIGN, Rhs: []ast.Expr{ast.NewIdent("lit")}},
+			&ast.AssignStmt{Lhs: []ast.Expr{ast.NewIdent("_")}, Tok: token.ASSIGN, Rhs: []ast.Expr{x}},
+		}}
+	}
 	pk.Injected[blk] = true
 	nl := append([]ast.Stmt{}, (*holder)[:idx]...)
 	nl = append(nl, blk)
@@ -82,7 +103,7 @@ func (pk *Pkg) injectLitAssert(c *Contract, fd *ast.FuncDecl, la *LitAssert) err
 }
 
 // litAsserts checks the unit's literal assertions for the composite literal x, whose value is v.
-func (e *Engine) litAsserts(x *ast.CompositeLit, v Value, st *State) {
+func (e *Engine) litAsserts(x ast.Expr, v Value, st *State) {
 	if e.c == nil || len(e.c.LitAsserts) == 0 || e.spec > 0 || len(e.inlineStack) > 0 {
 		return
 	}
@@ -90,16 +111,22 @@ func (e *Engine) litAsserts(x *ast.CompositeLit, v Value, st *State) {
 		if la.Node != x {
 			continue
 		}
-		obj := e.pk.Info.Defs[la.LitID]
-		if obj == nil {
-			continue
-		}
 		s2 := st.clone()
-		s2.vars[obj] = v
+		if !la.Call {
+			obj := e.pk.Info.Defs[la.LitID]
+			if obj == nil {
+				continue
+			}
+			s2.vars[obj] = v
+		}
 		e.spec++
 		g := e.ev(la.Clause.Expr, s2)
 		e.spec--
-		e.obligeNamed(st, fmt.Sprintf("lit:%s#%d", la.Type, la.Ord), "post", g.T, x.Pos(),
-			fmt.Sprintf("the %s literal satisfies %q", la.Type, la.Clause.Text), la.Clause.Prop)
+		what, tag := "literal", "lit"
+		if la.Call {
+			what, tag = "call", "call"
+		}
+		e.obligeNamed(st, fmt.Sprintf("%s:%s#%d", tag, la.Type, la.Ord), "post", g.T, x.Pos(),
+			fmt.Sprintf("at the %s %s #%d: %q", what, la.Type, la.Ord, la.Clause.Text), la.Clause.Prop)
 	}
 }
